@@ -728,6 +728,19 @@ def r8(ctx):
                "%s evaluates an own sub-rule through the env-less API (%s): inside it a meta-variable bound by the enclosing rule is free again, so a repeated name no longer has to "
                "denote the same code" % (st.split("::")[-1].split("<")[0], sorted(set(bad))), where=m.loc())
     ctx.floor("R8", "combinator/rule Matcher impls", n, 10)
+    # …and a sub-rule whose variables the rule exposes must bind them in the CALLER's environment at least once (C12 R6): if an operator
+    # only ever evaluates it on scratch environments, a later occurrence of the same name is unconstrained
+    from . import c12
+    from ..core import Ctx
+    sub = Ctx("C12", ctx.tier, prog)
+    reach, bearing = c12.rule_bearing(prog)
+    c12.r6(sub, bearing)
+    k = 0
+    for o in sub.obligations:
+        if "some evaluation binds into the caller's environment" in o["key"]:
+            k += 1
+            ctx.ob("R8", o["key"].split(":", 1)[1], o["ok"], o["detail"], where=o.get("where"), nontrivial=o.get("nontrivial", True))
+    ctx.floor("R8", "own-environment obligations shared with C12 R6", k, 3)
 
 
 AGG_TY = re.compile(r"^&mut impl Aggregator<")
